@@ -441,7 +441,7 @@ class SymCtx(BaseCtx):
         if eng.is_inf(b):
             return self.check(label, bool(b < 0), detail)
         za, zb = toz(a), toz(b)
-        return self.check(label, za >= zb, detail, margin=za <= zb - rv(MARGIN))
+        return self.check(label, za >= zb - rv(ABS_TOL), detail, margin=za <= zb - rv(MARGIN))
 
     def check_in(self, label, x, lo, hi, detail=None):
         if not self.is_finite_number(x):
